@@ -13,6 +13,7 @@ import common
 from common import err_kind, enc, encl, dec, decl, close, close_list
 from fractions import Fraction as F
 from props import c11_hist as H
+from props import c11_float as FL
 
 ID = "C11"
 RULE = ("exhaustive small grids (reflection vectors of length <= 3 over a 9-point pool, pole sets of "
@@ -25,8 +26,35 @@ RULE = ("exhaustive small grids (reflection vectors of length <= 3 over a 9-poin
         "object passed again, numerically equal coefficients given as float / int / Fraction in both orders with "
         "critical denominators whose binary64 verdict differs from the exact one, two parcor generators drained in "
         "turns, CascadeFilter), every history in a forked child of a pristine process; a history is non-trivial when "
-        "it contains a parcor / parcor_stable query")
+        "it contains a parcor / parcor_stable query; "
+        "round 3: NEAR-CRITICAL inputs in exact arithmetic (reflection vectors with entries at distance 1e-3..1e-15 "
+        "from +-1 on either side, real poles and conjugate pairs at distance 1e-3..1e-12 from the unit circle inside / "
+        "outside, alone, with ordinary poles, beside really critical ones, any gain): ParCorError iff some |k| = 1 "
+        "exactly, verdict iff all |k| < 1, and parcor_stable on every stepped-up filter; FLOAT regime (entry fparcor, "
+        "harness/props/c11_float.py): int / float coefficient lists of order 1-8 (integer denominators with poles known "
+        "by construction and leading coefficient c*prod b_i, every int lead 1..300 in the thorough tier, float step-ups "
+        "times random float gains, float near-critical, raw), compared BIT FOR BIT with the binary64 run of the same "
+        "loop and, where well conditioned, with the exact specification on the same numbers (1e-9); CALL shapes (entry "
+        "call): ZFilter(num, den) with Laurent numerator / denominator (powers from -2, missing power 0, leading / "
+        "trailing zeros, constant / zero / feedback denominators) built from dicts, lists or z-expressions, positional "
+        "or keyword call - error branches ValueError / ZeroDivisionError included")
 TRUSTED = [
+    "float regime (round 3): the driver runs ALV.C11.parcorFixedG / parcorStableFixedG - the loop of the theorems, "
+    "parameterised by the squaring function and PROVED equal to parcorFixed / parcorStableFixed for sq = k*k "
+    "(Props.C11.floatloop_is_model) - on binary64 bit patterns (ALV.C11.F64) with sq = Float.pow(k, 2). Trusted, not "
+    "proved: (i) Lean's Float + - * / and Python's float + - * / are the same IEEE-754 binary64 round-to-nearest "
+    "operations of this machine, (ii) Lean's Float.pow and CPython's float ** call the same libm pow (checked on every "
+    "run on a fixed table of 4048 numbers, which contains numbers where pow(k,2) != k*k: extra check "
+    "float-twin-pow-is-cpython-pow), (iii) the operation ORDER of the model is the code's (read from lazy_filters.py / "
+    "lazy_poly.py: c*(1/g), a+(-(k*c)), (..)*(1/(1-k**2)), (c+(-c))+1; documented in ALV/Model/C11Float.lean) - this is "
+    "what the bit-for-bit comparison validates, (iv) -0.0 is stored as +0.0 (Python's == 0 does not see the sign; no "
+    "division by a zero survives); runs that meet inf / nan are flagged and not compared (CPython raises OverflowError "
+    "from ** where C returns inf). No theorem is ABOUT binary64 arithmetic",
+    "call shapes (round 3): hand-written model ALV/Model/C11Call.lean of LinearFilter.__init__'s shift and of the "
+    "branches of parcor before the loop (len(den) != 1, gain == 0, negative powers left); the z-expression / list / dict "
+    "constructions and the keyword call are exercised on the real code and compared with the one model",
+    "lsf / lsf_stable (same file, 'see also' of parcor_stable) import numpy.roots, which is absent here: they raise "
+    "ImportError after their own ValueError('Filter has feedback') test and are neither modelled nor tied",
     "hand-written Lean model ALV/Model/C11.lean of lazy_lpc.parcor / parcor_stable / levinson_durbin "
     "(modelled, not verified: ZFilter/Poly arithmetic as a window of Laurent coefficients over a field, "
     "generator protocol, all()'s short circuit)",
@@ -50,8 +78,12 @@ TRUSTED = [
     "one child per history, so a witness is self-contained (no cache / attribute / module state left by earlier cases)",
 ]
 ASSUMPTIONS = [
-    "leading (delay 0) coefficient of the step-down input is non-zero (ZFilter's constructor guarantees "
-    "it for denominators; a numerator z^-1*(...) is outside the property)",
+    "leading (delay 0) coefficient of the step-down input is non-zero for the clauses of the property (ZFilter's "
+    "constructor guarantees it for denominators); what the code does otherwise - ZeroDivisionError for a numerator "
+    "without a term at power 0, ValueError for negative powers or feedback - is modelled (ALV/Model/C11Call.lean) and "
+    "tied (entry call), and Props.C11.call_parcorError_only_critical shows that none of these is a ParCorError",
+    "float regime: finite binary64 numbers only; ints below 2^53; complex, Stream (time-varying) and Poly-valued "
+    "coefficients are outside the property's quantifier and outside model and generator",
     "coefficients are exact rationals; float rounding inside the real code is only bounded by the "
     "1e-9 tolerance in the cases where Poly's float zero leaks in (flagged per case); floats yielded for an "
     "all-Fraction filter without a zero reflection coefficient are NOT excused (compared exactly)",
@@ -59,7 +91,13 @@ ASSUMPTIONS = [
     "or fractional powers, and never hashes a Poly (a hashed Poly refuses item assignment)",
 ]
 MANIFEST = {
-    "text": ("Lean 4 theorems, for every order and any field: parcor as coded inverts the step-up recursion and "
+    "text": ("ROUND 3: sharp step-down (every reflection vector: yields up to and including the first k with k^2 = 1 "
+             "and raises there, completes otherwise; ParCorError iff some input k = +-1; verdict of a stepped-up filter "
+             "= all |k| < 1; for every eps > 0 a coefficient within eps of 1 on either side that is NOT critical), the "
+             "loop parameterised by the squaring function = the model (so that the binary64 run with libm pow is the same "
+             "definition), the call on Laurent numerators / denominators with its error branches, parcor_stable decides "
+             "on the shifted denominator and never reads the numerator.  "
+             "Lean 4 theorems, for every order and any field: parcor as coded inverts the step-up recursion and "
              "step-up rebuilds the filter (whenever leading coefficient = den[0]); ParCorError iff some yielded "
              "k^2 = 1 (all inputs); levinson_durbin as coded = step-up of its reflection coefficients with "
              "error = r0*prod(1-k^2); gain invariance of the specification and of the repaired code, and its "
@@ -299,10 +337,59 @@ def generate(rng, tier, scale=1):
             cases.append(case_lev(r, max(1, order - 1)))       # order below len(r) - 1
         else:
             cases.append(case_lev(r[:max(2, order)], order + rng.choice([0, 1, 2])))   # zero extension
+    cases.extend(near_critical_cases(rng, (70 if quick else 1200) * scale, scale == 1))
     if scale == 1:
         cases.extend(long_cases(rng, quick))
+    cases.extend(FL.generate(rng, tier, scale))
     cases.extend(H.generate(rng, tier, scale))
     return cases
+
+
+def near_unit(rng, lo=3, hi=15):
+    """a rational at distance 10^-e (e in lo..hi) from +1 or -1, on either side"""
+    e = rng.randint(lo, hi)
+    return rng.choice([1, -1]) * (1 + rng.choice([1, -1]) * F(1, 10 ** e))
+
+
+def near_critical_cases(rng, n, fixed):
+    """near-critical but not critical inputs in EXACT arithmetic (the ParCorError test and the verdict are exact:
+    Props.C11.stepdown_stepup_sharp, stable_stepUp, near_critical_is_not_critical)"""
+    out = []
+    if fixed:
+        eps = F(1, 10 ** 9)
+        for ks in ([F(1, 3), 1 - eps, F(1, 4)], [-(1 - eps), F(1, 2)], [F(2, 5), F(-1, 7), 1 + eps, F(-3, 4)],
+                   [1 - F(1, 10 ** 7)], [1 - F(1, 10 ** 8)], [-1 - F(1, 10 ** 15)], [F(1, 3), F(1), F(1, 4)]):
+            out.append(case_stepup(ks))
+        for reals in ([1 - eps], [-(1 - eps)], [1 - eps, F(1, 2), F(-1, 3)], [1 - eps, F(1)], [1 + eps], [1 + eps, F(1, 2)],
+                      [1 - F(1, 10 ** 7), F(1, 2)], [1 - F(1, 10 ** 12), F(-1, 2)]):
+            for g in (F(1), F(-5, 2), F(3)):
+                out.append(case_stable(g, reals, []))
+    for _ in range(n):
+        order = rng.choice([1, 2, 3, 3, 4, 5, 6])
+        # reflection vectors: one or two entries next to +-1, the others ordinary and non-zero (no float zero leaks)
+        ks = [F(rng.randint(1, 9) * rng.choice([1, -1]), 10) for _ in range(order)]
+        for _ in range(rng.choice([1, 1, 2])):
+            ks[rng.randrange(order)] = near_unit(rng)
+        if rng.random() < .15:
+            ks[rng.randrange(order)] = rng.choice([F(1), F(-1)])       # a really critical one beside it
+        out.append(case_stepup(ks))
+    for _ in range(n):
+        nr = rng.choice([0, 1, 1, 2, 3])
+        npair = rng.choice([0, 0, 1, 1]) if nr else 1
+        reals = [rng.choice(IN_REAL[1:]) for _ in range(nr)]
+        pairs = [rng.choice(IN_PAIR) for _ in range(npair)]
+        t = rng.random()
+        if reals and (not pairs or t < .6):
+            reals[rng.randrange(nr)] = near_unit(rng, 3, 12)
+        else:
+            a, b = rng.choice(ON_PAIR)
+            s_ = abs(near_unit(rng, 3, 12))
+            pairs[rng.randrange(npair)] = (a * s_, b * s_)              # modulus s_, next to the unit circle
+        if rng.random() < .1 and reals:
+            reals.append(rng.choice(ON_REAL))                         # critical beside near-critical
+        g = rng.choice(GAINS) if rng.random() < .6 else rnz(rng)
+        out.append(case_stable(g, reals, pairs))
+    return out
 
 
 def long_cases(rng, quick):
@@ -369,13 +456,20 @@ def impl(c):
     H.zygote_start()       # the pristine process of the histories is forked before this one uses the library
     if c["entry"] == "hist":
         return H.impl(c)
+    if c["entry"] in ("fparcor", "call"):
+        return FL.impl(c)
     from audiolazy import ZFilter, parcor, parcor_stable, levinson_durbin
     from audiolazy.lazy_lpc import ParCorError
     e = c["entry"]
     try:
         if e == "stepup":
             f = step_up(decl(c["ks"]))
-            return dict(_drain(parcor(ZFilter(f))), filter=encl(f))
+            o = dict(_drain(parcor(ZFilter(f))), filter=encl(f))
+            try:
+                o["stable"] = bool(parcor_stable(ZFilter([F(1)], f)))
+            except Exception as ex:
+                o["stable"] = "err:" + err_kind(ex)
+            return o
         if e == "parcor":
             return _drain(parcor(ZFilter(decl(c["num"]), decl(c["den"]))))
         if e in ("stable", "stable_den"):
@@ -403,6 +497,8 @@ def impl(c):
 def request(c):
     if c["entry"] == "hist":
         return H.request(c)
+    if c["entry"] in ("fparcor", "call"):
+        return FL.request(c)
     return c
 
 
@@ -455,6 +551,8 @@ def compare(c, io, drv):
     e = c["entry"]
     if e == "hist":
         return H.compare(c, io, drv)
+    if e in ("fparcor", "call"):
+        return FL.compare(c, io, drv)
     out = []
     if e in ("stepup", "parcor"):
         m = drv["model"]
@@ -488,7 +586,19 @@ def compare(c, io, drv):
             if all(k * k != 1 for k in ks):
                 # the statement of the property: last first, exactly the reflection coefficients
                 if not (io["raised"] is False and close_list(decl(io["ks"]), ks[::-1], tol)):
-                    out.append(("spec", "parcor(step-up(ks)) = %r, expected reversed ks" % (io["ks"],)))
+                    out.append(("spec", "parcor(step-up(ks)) = %r raised=%s, expected reversed ks and no ParCorError "
+                                        "(no |k| equals 1)" % (io["ks"], io["raised"])))
+            # the sharp form (Props.C11.stepdown_stepup_sharp): up to and including the first critical one
+            if drv["sharp"] != drv["spec"]:
+                out.append(("model", "Lean cutAtUnit disagrees with parcorSpec (contradicts stepdown_stepup_sharp)"))
+            if not _same_ks(io, drv["sharp"], tol):
+                out.append(("spec", "parcor(step-up(ks)) = %r raised=%s; sharp expectation %r" % (io["ks"], io["raised"], drv["sharp"])))
+            # the verdict on the stepped-up filter (Props.C11.stable_stepUp): True iff every |k| < 1
+            if drv["stable_spec"] != drv["all_inside"] or drv["stable_model"] != drv["all_inside"]:
+                out.append(("model", "Lean verdict on step-up(ks) is not all(|k|<1) (contradicts stable_stepUp)"))
+            if not (io["float"] and _critical(ks)) and io.get("stable") != drv["all_inside"]:
+                out.append(("model", "parcor_stable(1/step-up(ks)) = %s, model %s" % (io.get("stable"), drv["stable_model"])))
+                out.append(("spec", "parcor_stable(1/step-up(ks)) = %s but all |k| < 1 is %s" % (io.get("stable"), drv["all_inside"])))
         if not io["raised"]:
             # rebuilding by step-up returns the (monic) filter
             reb = step_up(decl(io["ks"])[::-1])
@@ -555,7 +665,18 @@ def _order(c):
 def nontrivial(c, io):
     if c["entry"] == "hist":
         return H.nontrivial(c, io)
+    if c["entry"] in ("fparcor", "call"):
+        return FL.nontrivial(c, io)
     return _order(c) >= 1 and io.get("err") != "ValueError"
+
+
+def _dist_bucket(d):
+    if d == 0:
+        return "0 (critical)"
+    for e in (15, 12, 9, 7, 5, 3):
+        if d <= F(1, 10 ** e):
+            return "<=1e-%d" % e
+    return ">1e-3"
 
 
 def tally(eng, c, io):
@@ -564,6 +685,8 @@ def tally(eng, c, io):
         eng.count("entry", e)
         return H.tally(eng, c, io)
     eng.count("entry", e)
+    if e in ("fparcor", "call"):
+        return FL.tally(eng, c, io)
     eng.count("compared:" + e, io.get("compared", "error branch"))
     eng.count("order", min(_order(c), 12))
     if _order(c) >= 30:
@@ -585,6 +708,7 @@ def tally(eng, c, io):
             eng.count("ks_kind", "all|k|<1" if all(abs(k) < 1 for k in ks) else
                       "some|k|=1" if any(abs(k) == 1 for k in ks) else "some|k|>1")
             eng.count("ks_has_zero", any(k == 0 for k in ks))
+            eng.count("ks_distance_to_unit", _dist_bucket(min(abs(abs(k) - 1) for k in ks)))
     elif e in ("stable", "stable_den"):
         eng.count("regime", "float-leak" if io["float"] else "exact")
         eng.count("parcor_stable", io["stable"])
@@ -594,6 +718,7 @@ def tally(eng, c, io):
             eng.count("pole_set", "on-circle" if any(m == 1 for m in mods) and all(m <= 1 for m in mods) else
                       "all-inside" if all(m < 1 for m in mods) else "some-outside")
             eng.count("gain", "1" if dec(c["gain"]) == 1 else "non-1")
+            eng.count("pole_distance_to_circle", _dist_bucket(min(abs(m - 1) for m in mods) / 2))
     elif e == "levinson":
         eng.count("regime", "float (Poly zero 0. always leaks into levinson_durbin)")
         eng.count("levinson_parcor", "ParCorError" if io["parcor"].get("raised") else "completed")
@@ -645,6 +770,10 @@ def shrink(c):
     e = c["entry"]
     if e == "hist":
         for s in H.shrink(c):
+            yield s
+        return
+    if e in ("fparcor", "call"):
+        for s in FL.shrink(c):
             yield s
         return
     if e == "stepup":
@@ -709,6 +838,10 @@ def neighbours(c):
         for s in H.neighbours(c):
             yield s
         return
+    if e in ("fparcor", "call"):
+        for s in FL.neighbours(c):
+            yield s
+        return
     for s in shrink(c):
         yield s
     if e == "stepup":
@@ -738,6 +871,8 @@ def classify(c, io, drv):
     e = c["entry"]
     if e == "hist":
         return H.classify(c, io, drv)
+    if e in ("fparcor", "call"):
+        return FL.classify(c, io, drv)
     if "err" in io:
         return "%s:%s" % (e, io["err"])
     if e in ("parcor", "stepup"):
@@ -758,3 +893,8 @@ def classify(c, io, drv):
     if e == "levinson":
         return "levinson:reflection-or-error"
     return "unclassified"
+
+
+def extra_checks(eng):
+    for r in FL.extra_checks(eng):
+        yield r
